@@ -230,6 +230,8 @@ def instances_as_input(out):
 
 
 def run(ctx, out):
+    import families as _famsm
+    out.evaluations += _famsm.struct_mapping_family(out, PROP)
     out.evaluations += instances_as_input(out)
     out.rule = ('types x values, both verdicts; the value is deep-copied into instrumented dict/list subclasses (still dict/list for every '
                 'isinstance gate) that record every mutating method call; from_data, collect_errors, convert, into_data (typed values), '
